@@ -1151,6 +1151,19 @@ theorem Interval_extendByPoint_inverted_not_least :
     h1 3 (by rw [Interval_extendByPoint]; simp only [Interval.Mem]; decide)
   simp only [Interval.Mem] at h2; omega
 
+
+/-- non-vacuity of the sequence theorem over a bounded order (`Fin 4`, bounds 0 and 3): a list mixing points, a non-inverted
+box and the canonical empty box satisfies the hypotheses -/
+example : ∀ a ∈ ([.pt ⟨1, 2, 0⟩, .bx ⟨⟨0, 1, 1⟩, ⟨2, 1, 3⟩⟩, .bx (Box3.canonEmpty 3 0), .pt ⟨3, 0, 0⟩] : List (Box3.Arg (Fin 4))),
+    a.Ok 3 0 := by
+  intro a ha
+  simp only [List.mem_cons, List.not_mem_nil, or_false] at ha
+  rcases ha with rfl | rfl | rfl | rfl
+  · trivial
+  · exact Or.inl (by simp only [Box3.Inverted]; decide)
+  · exact Or.inr rfl
+  · trivial
+
 /-! ## The Vec2 / Vec3 specialisations behave like the generic template
 
 `Box<Vec4>` runs the generic loops.  Embedding a 2-D / 3-D box into 4-D with degenerate extra axes
